@@ -674,22 +674,25 @@ def mediaPlaylist (st : State) (si : Nat) (delta : Bool) : Playlist :=
       parts := if isLL then (match s.nextSegment with | some g => g.parts.map (plPart si) | none => []) else [],
       hint := if isLL then some (.part si s.nextPartID) else none }
 
-/-- `hasPart(segmentID, partID)` including the roll-over `continue` over the REMAINING list. -/
-def hasPartScan : List Entry → Nat → Nat → Bool
-  | [], _, _ => false
-  | .gap _ :: rest, m, p => hasPartScan rest m p
+/-- `hasPart(segmentID, partID)` including the roll-over `continue` over the REMAINING list; when the
+    roll-over runs past the last complete segment, the open segment (`nextID`, `openParts` parts) is tested. -/
+def hasPartScan (nextID openParts : Nat) : List Entry → Nat → Nat → Bool
+  | [], m, p => decide (m = nextID ∧ p < openParts)
+  | .gap _ :: rest, m, p => hasPartScan nextID openParts rest m p
   | .seg g :: rest, m, p =>
     if m = g.id then
-      if p ≥ g.parts.length then hasPartScan rest (m + 1) 0
+      if p ≥ g.parts.length then hasPartScan nextID openParts rest (m + 1) 0
       else true
-    else hasPartScan rest m p
+    else hasPartScan nextID openParts rest m p
+
+def StreamSt.openPartCount (s : StreamSt) : Nat :=
+  match s.nextSegment with
+  | some g => g.parts.length
+  | none => 0
 
 def StreamSt.hasPart (s : StreamSt) (m p : Nat) : Bool :=
-  if m = s.nextSegmentID then
-    match s.nextSegment with
-    | some g => decide (p < g.parts.length)
-    | none => false
-  else hasPartScan s.segments m p
+  if m = s.nextSegmentID then decide (p < s.openPartCount)
+  else hasPartScan s.nextSegmentID s.openPartCount s.segments m p
 
 inductive ReqDecision
   | bad400
@@ -712,7 +715,8 @@ def reqDecision (st : State) (si : Nat) (msn part : Option Nat) (skip : Bool) : 
       -- uint64 arithmetic: nextSegmentID - uint64(len(segments)-1)
       let lower := (s.nextSegmentID + two64 - ((s.segments.length + two64 - 1) % two64)) % two64
       if m > s.nextSegmentID + 1 ∨ m < lower then .bad400
-      else if s.hasContent v && s.hasPart m pp then .respond delta
+      -- without `_HLS_part` the playlist must contain the whole segment
+      else if s.hasContent v && ((p.isSome && s.hasPart m pp) || (p.isNone && decide (m < s.nextSegmentID))) then .respond delta
       else .wait
     | none, some _ => .bad400
     | none, none => if s.hasContent v then .respond delta else .wait
